@@ -209,6 +209,14 @@ Definition check (s : sx) : Z :=
       | Some same => both ((ms =? timestamp_spec sec nsec) && same) (ms =? timestamp_ms sec nsec)
       | None => code_decode_error
       end
+  (* ---- stacks of timestamp wrappers (innermost first), inner metrics that write their own timestamp ---- *)
+  | SL [SZ 9; inner; layers; ms; same] =>
+      match dOpt dZ inner, dZZ layers, dOpt dZ ms, dB same with
+      | Some inner, Some layers, Some ms, Some same =>
+          let oeq (a b : option Z) := match a, b with Some x, Some y => x =? y | None, None => true | _, _ => false end in
+          both (oeq ms (nested_timestamp_spec inner layers) && same) (oeq ms (nested_timestamp inner layers))
+      | _, _, _, _ => code_decode_error
+      end
   (* ---- NewMetricWithExemplars over a const counter / gauge / untyped ---- *)
   | SL [SZ 7; SZ _; SZ vt; v; exs; impl] =>
       match dF v, dExIn exs with
@@ -324,6 +332,11 @@ Definition explain (s : sx) : sx :=
       | _, _, _, _, _ => SL []
       end
   | SL [SZ 6; SZ sec; SZ nsec; _; _] => SL [SZ (timestamp_ms sec nsec); SZ (timestamp_spec sec nsec)]
+  | SL [SZ 9; inner; layers; _; _] =>
+      match dOpt dZ inner, dZZ layers with
+      | Some inner, Some layers => SL [eOpt SZ (nested_timestamp inner layers); eOpt SZ (nested_timestamp_spec inner layers)]
+      | _, _ => SL []
+      end
   | SL [SZ 7; SZ _; SZ vt; v; exs; _] =>
       match dF v, dExIn exs with
       | Some v, Some exs => SL [eRes ePayload (new_metric_with_exemplars (if vt =? 1 then PCounter v None else POther) exs); eB (exs_ok_spec exs)]
